@@ -92,6 +92,10 @@ func NewFilterFS(fs FS, opt *FilterOpt) (FS, error) {
 		if targets != nil {
 			includePatterns = append(includePatterns, targets...)
 			includePatterns = dedupePaths(includePatterns)
+		} else if len(opt.FollowPaths) > 0 {
+			// one of the followed paths leads to the root: there is no include filter,
+			// whatever IncludePatterns asked for
+			includePatterns = nil
 		}
 	}
 
